@@ -34,7 +34,11 @@ pub fn constants(
                 .into_iter()
                 // predecessors unreachable from the entry have no state
                 .filter_map(|location| constants.get(&location.into()))
-                .fold(Constants::new(), |c, predecessor| c.join(predecessor)),
+                .fold(None, |c: Option<Constants>, predecessor| match c {
+                    Some(c) => Some(c.join(predecessor)),
+                    None => Some(predecessor.clone()),
+                })
+                .unwrap_or_else(Constants::new),
         );
     }
 
@@ -190,7 +194,14 @@ impl Constants {
                         result.set_scalar(scalar.clone(), Constant::Top);
                     }
                 }
-                None => result.set_scalar(scalar.clone(), constant.clone()),
+                // A scalar one path has not assigned still holds whatever it
+                // held before, which is not known to be this constant.
+                None => result.set_scalar(scalar.clone(), Constant::Top),
+            }
+        }
+        for scalar in self.constants.keys() {
+            if !other.constants.contains_key(scalar) {
+                result.set_scalar(scalar.clone(), Constant::Top);
             }
         }
         result
